@@ -178,10 +178,17 @@ func init() {
 	intrinsics[vrt+"Since"] = func(e *Engine, fr *frame, fn *ssa.Function, args []Value) Value {
 		return e.st.Bin(OpSub, e.clock, e.timeNs(args[0]))
 	}
+	intrinsics[vrt+"StartStopwatch"] = func(e *Engine, fr *frame, fn *ssa.Function, args []Value) Value {
+		return Struct{e.mkTime(e.clock)}
+	}
+	intrinsics[vrt+"Elapsed"] = func(e *Engine, fr *frame, fn *ssa.Function, args []Value) Value {
+		return e.st.Bin(OpSub, e.clock, e.timeNs(args[0].(Struct)[0]))
+	}
 	intrinsics[vrt+"Advance"] = func(e *Engine, fr *frame, fn *ssa.Function, args []Value) Value {
 		d := e.asInt(args[0])
 		e.assume(e.st.Cmp(OpSLe, e.st.Const(64, 0), d))
 		e.clock = e.st.Bin(OpAdd, e.clock, d)
+		e.ctxExpire()
 		return nil
 	}
 	intrinsics[vrt+"Observe"] = func(e *Engine, fr *frame, fn *ssa.Function, args []Value) Value {
@@ -267,6 +274,11 @@ func init() {
 	}
 	intrinsics[vrt+"Ticks"] = func(e *Engine, fr *frame, fn *ssa.Function, args []Value) Value {
 		e.ticks = int(e.concretize(e.asInt(args[0]), 0, 64, "verifrt.Ticks"))
+		e.tickEpoch++
+		return nil
+	}
+	intrinsics[vrt+"Settle"] = func(e *Engine, fr *frame, fn *ssa.Function, args []Value) Value {
+		e.settle()
 		return nil
 	}
 	intrinsics[vrt+"WaitAll"] = func(e *Engine, fr *frame, fn *ssa.Function, args []Value) Value {
@@ -316,7 +328,7 @@ func init() {
 		tt := e.P.ByPath["time"].Type("Ticker").Type()
 		p := new(Value)
 		z := e.zero(tt).(Struct)
-		z[0] = &Chan{Cap: 1, Ticker: true} // field C
+		z[0] = &Chan{Cap: 1, Ticker: true, Epoch: e.tickEpoch} // field C
 		*p = z
 		return p
 	}
@@ -690,6 +702,53 @@ func init() {
 		}
 		return Tuple{e.mkURL(u), Iface{}}
 	}
+	// http.NewRequestWithContext: builds the Request value (method, parsed URL, empty
+	// header, host, context); bodies other than nil are not modelled
+	intrinsics["net/http.NewRequestWithContext"] = func(e *Engine, fr *frame, fn *ssa.Function, args []Value) Value {
+		ctx, _ := args[0].(Iface)
+		if ctx.T == nil {
+			return Tuple{(*Value)(nil), e.newErrorIface("<net/http: nil Context>")}
+		}
+		if b, _ := args[3].(Iface); b.T != nil {
+			panic(unsupported("http.NewRequestWithContext with a body"))
+		}
+		method := cstr(args[1])
+		if method == "" {
+			method = "GET"
+		}
+		u, err := url.Parse(cstr(args[2]))
+		if err != nil {
+			return Tuple{(*Value)(nil), e.newErrorIface("<url.Parse: " + err.Error() + ">")}
+		}
+		named := e.P.ByPath["net/http"].Type("Request").Type()
+		rt := named.Underlying().(*types.Struct)
+		z := e.zero(named).(Struct)
+		set := func(name string, v Value) {
+			for i := 0; i < rt.NumFields(); i++ {
+				if rt.Field(i).Name() == name {
+					z[i] = v
+					return
+				}
+			}
+			panic(unsupported("http.Request has no field " + name))
+		}
+		set("Method", Str{S: method})
+		set("URL", e.mkURL(u))
+		set("Proto", Str{S: "HTTP/1.1"})
+		set("ProtoMajor", e.st.Const(64, 1))
+		set("ProtoMinor", e.st.Const(64, 1))
+		ht := e.P.ByPath["net/http"].Type("Header").Type().Underlying().(*types.Map)
+		set("Header", &Map{KT: ht.Key(), VT: ht.Elem()})
+		set("Host", Str{S: u.Host})
+		set("ctx", ctx)
+		p := new(Value)
+		*p = z
+		return Tuple{p, Iface{}}
+	}
+	intrinsics["net/http.NewRequest"] = func(e *Engine, fr *frame, fn *ssa.Function, args []Value) Value {
+		bg := e.callFunction(fr, e.P.ByPath["context"].Func("Background"), nil, nil)
+		return intrinsics["net/http.NewRequestWithContext"](e, fr, fn, append([]Value{bg}, args...))
+	}
 	intrinsics["(*net/url.URL).String"] = func(e *Engine, fr *frame, fn *ssa.Function, args []Value) Value {
 		p := args[0].(*Value)
 		if p == nil {
@@ -859,30 +918,59 @@ func init() {
 		return Iface{T: types.NewPointer(vt), V: p}
 	}
 
-	// cancellable contexts: a flag object whose Done channel is closed by cancel()
-	type ctxState struct {
-		ch  *Chan
-		err Value
-	}
-	intrinsics["context.WithCancel"] = func(e *Engine, fr *frame, fn *ssa.Function, args []Value) Value {
+	// cancellable contexts: a flag object whose Done channel is closed by
+	// cancel(), by the cancellation of a modelled ancestor, or - for contexts
+	// with a deadline - when virtual time reaches the deadline (verifrt.Advance,
+	// or the scheduler firing the earliest timer when every thread is blocked).
+	mkCtx := func(e *Engine, parent Value, deadline *Term) (Iface, *ctxState) {
 		pkg := e.P.ByPath["context"]
 		ct := pkg.Type("cancelCtx").Type()
 		p := new(Value)
 		z := e.zero(ct).(Struct)
-		z[0] = args[0] // embedded parent Context
+		z[0] = parent // embedded parent Context
 		*p = z
-		st := &ctxState{ch: &Chan{}, err: Iface{}}
+		st := &ctxState{ch: &Chan{}, err: Iface{}, deadline: deadline}
 		e.side[p] = st
-		cancel := &NativeFn{Name: "context.CancelFunc", F: func(e *Engine, _ []Value) Value {
-			e.yield("context cancel")
-			if !st.ch.Closed {
-				st.ch.Closed = true
-				st.err = e.globalErr("context", "Canceled")
-				e.chanClosed(st.ch)
+		if pi, ok := parent.(Iface); ok {
+			if pv, ok := pi.V.(*Value); ok {
+				if ps, ok := e.side[pv].(*ctxState); ok {
+					if ps.ch.Closed {
+						st.ch.Closed = true
+						st.err = ps.err
+					} else {
+						ps.children = append(ps.children, st)
+					}
+					if deadline == nil {
+						st.deadline = ps.deadline
+					}
+				}
 			}
+		}
+		if deadline != nil && !st.ch.Closed {
+			e.timers = append(e.timers, st)
+		}
+		return Iface{T: types.NewPointer(ct), V: p}, st
+	}
+	mkCancel := func(st *ctxState) *NativeFn {
+		return &NativeFn{Name: "context.CancelFunc", F: func(e *Engine, _ []Value) Value {
+			e.yield("context cancel")
+			e.ctxClose(st, e.globalErr("context", "Canceled"), true)
 			return nil
 		}}
-		return Tuple{Iface{T: types.NewPointer(ct), V: p}, cancel}
+	}
+	intrinsics["context.WithCancel"] = func(e *Engine, fr *frame, fn *ssa.Function, args []Value) Value {
+		c, st := mkCtx(e, args[0], nil)
+		return Tuple{c, mkCancel(st)}
+	}
+	intrinsics["context.WithTimeout"] = func(e *Engine, fr *frame, fn *ssa.Function, args []Value) Value {
+		c, st := mkCtx(e, args[0], e.st.Bin(OpAdd, e.clock, e.asInt(args[1])))
+		e.ctxExpire()
+		return Tuple{c, mkCancel(st)}
+	}
+	intrinsics["context.WithDeadline"] = func(e *Engine, fr *frame, fn *ssa.Function, args []Value) Value {
+		c, st := mkCtx(e, args[0], e.timeNs(args[1]))
+		e.ctxExpire()
+		return Tuple{c, mkCancel(st)}
 	}
 	intrinsics["(*context.cancelCtx).Done"] = func(e *Engine, fr *frame, fn *ssa.Function, args []Value) Value {
 		st, ok := e.side[args[0].(*Value)].(*ctxState)
@@ -1337,4 +1425,81 @@ func (e *Engine) readerText(rd Iface) (string, bool) {
 		}
 	}
 	return "", false
+}
+
+// ctxState models a cancellable context (see context.WithCancel / WithTimeout).
+type ctxState struct {
+	ch       *Chan
+	err      Value
+	children []*ctxState
+	deadline *Term // nil: none
+}
+
+// ctxClose closes a context and every modelled descendant.
+func (e *Engine) ctxClose(st *ctxState, err Value, byThread bool) {
+	if st.ch.Closed {
+		return
+	}
+	st.ch.Closed = true
+	st.err = err
+	if byThread {
+		e.chanClosed(st.ch)
+	}
+	for _, c := range st.children {
+		e.ctxClose(c, err, byThread)
+	}
+}
+
+// ctxExpire closes every context whose deadline virtual time has reached.
+func (e *Engine) ctxExpire() {
+	for _, st := range e.timers {
+		if st.ch.Closed {
+			continue
+		}
+		if e.branch(e.st.Cmp(OpSLe, st.deadline, e.clock)) {
+			e.ctxClose(st, e.globalErr("context", "DeadlineExceeded"), false)
+		}
+	}
+}
+
+// fireTimer is called by the scheduler when every thread is blocked: virtual
+// time jumps to the earliest pending deadline (which one is earliest is a
+// decision constrained by the deadlines) and that context expires. Reports
+// whether a timer fired.
+func (e *Engine) fireTimer() bool {
+	var pend []*ctxState
+	for _, st := range e.timers {
+		if !st.ch.Closed {
+			pend = append(pend, st)
+		}
+	}
+	if len(pend) == 0 {
+		return false
+	}
+	k := 0
+	if len(pend) > 1 {
+		k = e.choose(len(pend), func(i int) *Term {
+			c := e.st.True
+			for j, o := range pend {
+				if j != i {
+					c = e.st.And(c, e.st.Cmp(OpSLe, pend[i].deadline, o.deadline))
+				}
+			}
+			return c
+		}, true)
+	}
+	st := pend[k]
+	if e.branch(e.st.Cmp(OpSLt, e.clock, st.deadline)) {
+		e.clock = st.deadline
+	}
+	e.res.Intrinsics["timer fired (all threads blocked)"]++
+	e.ctxClose(st, e.globalErr("context", "DeadlineExceeded"), false)
+	e.ctxExpire()
+	return true
+}
+
+// tickReady: a ticker's channel is ready while the budget granted by the most
+// recent verifrt.Ticks lasts, for tickers created after that call.
+func (e *Engine) tickReady(c *Chan) bool {
+	return c.Ticker && e.ticks > 0 && c.Epoch == e.tickEpoch
 }
